@@ -447,4 +447,166 @@ theorem inv_reach (tn : Nat → Name) (ls : List Lbl) (s s' : S) (hI : Inv tn s)
     · rename_i s1 h1; exact ih s1 (inv_step tn s s1 l hI h1) h
     · cases h
 
+/-! ### no lost wake-up over whole executions -/
+
+/-- steps that neither fire thread `i`'s deadline nor remove the name it looks up -/
+def harmless (tn : Nat → Name) (i : Nat) : Lbl → Bool
+  | .getDeadline j => j != i
+  | .evict n => n != tn i
+  | .deliver full items => !full || (lookupL items (tn i)).isSome
+  | _ => true
+
+/-- thread `i` has been supplied: the resource is in the cache, and the thread is not (and cannot get) stuck -/
+structure Supplied (tn : Nat → Name) (i : Nat) (s : S) : Prop where
+  cached : (s.cache (tn i)).isSome = true
+  notStart : s.pc i ≠ .start
+  woken : ∀ nf, s.pc i = .waiting nf → s.closed nf = true
+  noTimeout : ∀ nf, s.pc i ≠ .timedOut nf
+  noErr : s.pc i ≠ .done .err
+  noNil : s.pc i ≠ .done .nilnil
+
+theorem supplied_step (tn : Nat → Name) (i : Nat) (s s' : S) (l : Lbl) (hG : Supplied tn i s)
+    (hl : harmless tn i l = true) (hs : cstep expectedVariant tn s l = some s') : Supplied tn i s' := by
+  obtain ⟨v, hv⟩ := Option.isSome_iff_exists.mp hG.cached
+  cases l with
+  | getStart j =>
+    simp only [cstep] at hs
+    split at hs <;> try (cases hs; done)
+    rename_i hpj
+    have hji : j ≠ i := by intro e; subst e; exact hG.notStart hpj
+    have hpc : ∀ p, (setPc s j p).pc i = s.pc i := by intro p; simp [setPc, Ne.symm hji]
+    split at hs <;> cases hs <;>
+      exact ⟨hG.cached, by rw [hpc]; exact hG.notStart, by intro nf h; rw [hpc] at h; exact hG.woken nf h,
+             by intro nf; rw [hpc]; exact hG.noTimeout nf, by rw [hpc]; exact hG.noErr, by rw [hpc]; exact hG.noNil⟩
+  | getRegister j =>
+    simp only [cstep, expectedVariant, if_true] at hs
+    split at hs <;> try (cases hs; done)
+    rename_i hpj
+    by_cases hji : j = i
+    · subst hji
+      simp only [hv] at hs
+      cases hs
+      exact ⟨hG.cached, by simp [setPc], by intro nf h; simp [setPc] at h, by intro nf; simp [setPc],
+             by simp [setPc], by simp [setPc]⟩
+    · have hij : ¬ i = j := fun e => hji e.symm
+      split at hs
+      · cases hs
+        exact ⟨hG.cached, by simp only [setPc, hij, if_false]; exact hG.notStart,
+               by intro nf h; simp only [setPc, hij, if_false] at h; exact hG.woken nf h,
+               by intro nf; simp only [setPc, hij, if_false]; exact hG.noTimeout nf,
+               by simp only [setPc, hij, if_false]; exact hG.noErr, by simp only [setPc, hij, if_false]; exact hG.noNil⟩
+      · split at hs <;> cases hs <;>
+          exact ⟨hG.cached, by simp only [setPc, attachExisting, attachNew, hij, if_false]; exact hG.notStart,
+                 by intro nf h; simp only [setPc, attachExisting, attachNew, hij, if_false] at h; exact hG.woken nf h,
+                 by intro nf; simp only [setPc, attachExisting, attachNew, hij, if_false]; exact hG.noTimeout nf,
+                 by simp only [setPc, attachExisting, attachNew, hij, if_false]; exact hG.noErr,
+                 by simp only [setPc, attachExisting, attachNew, hij, if_false]; exact hG.noNil⟩
+  | getWake j =>
+    simp only [cstep] at hs
+    split at hs <;> try (cases hs; done)
+    split at hs <;> try (cases hs; done)
+    cases hs
+    by_cases hji : j = i
+    · subst hji
+      exact ⟨hG.cached, by simp [setPc], by intro nf h; simp [setPc] at h, by intro nf; simp [setPc],
+             by simp [setPc], by simp [setPc]⟩
+    · have hij : ¬ i = j := fun e => hji e.symm
+      exact ⟨hG.cached, by simp only [setPc, hij, if_false]; exact hG.notStart,
+             by intro nf h; simp only [setPc, hij, if_false] at h; exact hG.woken nf h,
+             by intro nf; simp only [setPc, hij, if_false]; exact hG.noTimeout nf,
+             by simp only [setPc, hij, if_false]; exact hG.noErr, by simp only [setPc, hij, if_false]; exact hG.noNil⟩
+  | getDeadline j =>
+    simp only [harmless, bne_iff_ne, ne_eq] at hl
+    simp only [cstep] at hs
+    split at hs <;> try (cases hs; done)
+    cases hs
+    have hij : ¬ i = j := fun e => hl e.symm
+    exact ⟨hG.cached, by simp only [setPc, hij, if_false]; exact hG.notStart,
+           by intro nf h; simp only [setPc, hij, if_false] at h; exact hG.woken nf h,
+           by intro nf; simp only [setPc, hij, if_false]; exact hG.noTimeout nf,
+           by simp only [setPc, hij, if_false]; exact hG.noErr, by simp only [setPc, hij, if_false]; exact hG.noNil⟩
+  | getReread j =>
+    simp only [cstep] at hs
+    split at hs <;> try (cases hs; done)
+    by_cases hji : j = i
+    · subst hji
+      simp only [hv] at hs
+      cases hs
+      exact ⟨hG.cached, by simp [setPc], by intro nf h; simp [setPc] at h, by intro nf; simp [setPc],
+             by simp [setPc], by simp [setPc]⟩
+    · have hij : ¬ i = j := fun e => hji e.symm
+      split at hs <;> cases hs <;>
+        exact ⟨hG.cached, by simp only [setPc, hij, if_false]; exact hG.notStart,
+               by intro nf h; simp only [setPc, hij, if_false] at h; exact hG.woken nf h,
+               by intro nf; simp only [setPc, hij, if_false]; exact hG.noTimeout nf,
+               by simp only [setPc, hij, if_false]; exact hG.noErr, by simp only [setPc, hij, if_false]; exact hG.noNil⟩
+  | getCleanup j =>
+    simp only [cstep, expectedVariant] at hs
+    split at hs <;> try (cases hs; done)
+    rename_i nf hpj
+    have hji : j ≠ i := by intro e; subst e; exact hG.noTimeout nf hpj
+    have hij : ¬ i = j := fun e => hji e.symm
+    cases hs
+    refine ⟨?_, ?_, ?_, ?_, ?_, ?_⟩
+    · simp only [setPc]; split <;> exact hG.cached
+    · simp only [setPc, hij, if_false]; split <;> exact hG.notStart
+    · intro nf' h
+      simp only [setPc, hij, if_false] at h ⊢
+      split at h <;> (split <;> exact hG.woken nf' h)
+    · intro nf'; simp only [setPc, hij, if_false]; split <;> exact hG.noTimeout nf'
+    · simp only [setPc, hij, if_false]; split <;> exact hG.noErr
+    · simp only [setPc, hij, if_false]; split <;> exact hG.noNil
+  | evict n =>
+    simp only [harmless, bne_iff_ne, ne_eq] at hl
+    simp only [cstep] at hs
+    split at hs
+    · cases hs
+    cases hs
+    have : ¬ tn i = n := fun e => hl e.symm
+    exact ⟨by simp only [this, if_false]; exact hG.cached, hG.notStart, hG.woken, hG.noTimeout, hG.noErr, hG.noNil⟩
+  | deliver full items =>
+    simp only [harmless, Bool.or_eq_true, Bool.not_eq_eq_eq_not, Bool.not_true] at hl
+    simp only [cstep] at hs
+    cases hs
+    refine ⟨?_, hG.notStart, ?_, hG.noTimeout, hG.noErr, hG.noNil⟩
+    · show (match lookupL items (tn i) with | some v => some v | none => if full = true then none else s.cache (tn i)).isSome = true
+      cases hlk : lookupL items (tn i) with
+      | some w => rfl
+      | none =>
+        rcases hl with hf | hsome
+        · simp only [hf]; exact hG.cached
+        · rw [hlk] at hsome; cases hsome
+    · intro nf h
+      show (s.closed nf || decide (∃ n ∈ items.map Prod.fst, s.notif n = some nf)) = true
+      rw [hG.woken nf h]; rfl
+
+theorem supplied_run (tn : Nat → Name) (i : Nat) (ls : List Lbl) (s s' : S) (hG : Supplied tn i s)
+    (hl : ls.all (harmless tn i) = true) (h : runL expectedVariant tn s ls = some s') : Supplied tn i s' := by
+  induction ls generalizing s with
+  | nil => simp only [runL] at h; cases h; exact hG
+  | cons l ls ih =>
+    simp only [List.all_cons, Bool.and_eq_true] at hl
+    simp only [runL] at h
+    split at h
+    · rename_i s1 h1; exact ih s1 (supplied_step tn i s s1 l hG hl.1 h1) hl.2 h
+    · cases h
+
+/-- the delivery itself supplies every unfinished, started thread of that name whose deadline has not fired -/
+theorem deliver_supplies (tn : Nat → Name) (i : Nat) (s s' : S) (full : Bool) (items : List (Name × Val))
+    (hI : Inv tn s) (hns : s.pc i ≠ .start) (hnt : ∀ nf, s.pc i ≠ .timedOut nf) (hnd : ∀ r, s.pc i ≠ .done r)
+    (hmem : tn i ∈ items.map Prod.fst)
+    (hs : cstep expectedVariant tn s (.deliver full items) = some s') : Supplied tn i s' := by
+  simp only [cstep] at hs
+  cases hs
+  obtain ⟨v, hv⟩ := lookupL_isSome_of_mem hmem
+  refine ⟨by simp [hv], hns, ?_, hnt, hnd _, hnd _⟩
+  intro nf hw
+  show (s.closed nf || decide (∃ n ∈ items.map Prod.fst, s.notif n = some nf)) = true
+  cases hc : s.closed nf with
+  | true => rfl
+  | false =>
+    have := hI.wait i nf hw hc
+    simp only [Bool.false_or, decide_eq_true_eq]
+    exact ⟨tn i, hmem, this⟩
+
 end XdsVerif.Conc
